@@ -211,7 +211,17 @@ def rule_lay2(ctx: Ctx) -> RuleResult:
             rr.instances += 1
             if k is base:
                 t = norm(f.node)
-                ok = "data['nested'] = [indent(s) for s in nested_classes]" in t and "self.BODY.render(**data)" in t
+                def _indented_all(n) -> bool:
+                    # data['nested'] = [indent(x) for x in nested_classes]  (any variable; a list, tuple or generator of them)
+                    if not (isinstance(n, ast.Assign) and norm(n.targets[0]) == "data['nested']"):
+                        return False
+                    v = n.value
+                    if isinstance(v, ast.Call) and norm(v.func) in ("list", "tuple") and len(v.args) == 1:
+                        v = v.args[0]
+                    return isinstance(v, (ast.ListComp, ast.GeneratorExp)) and len(v.generators) == 1 and not v.generators[0].ifs \
+                        and norm(v.generators[0].iter) == "nested_classes" and isinstance(v.generators[0].target, ast.Name) \
+                        and norm(v.elt) == f"indent({v.generators[0].target.id})"
+                ok = any(_indented_all(n) for n in walk_no_nested(f.node)) and "self.BODY.render(**data)" in t
                 rr.ob(f.relpath, f.qualname, "data['nested'] = [indent(s) for s in nested_classes]", "the base renderer puts "
                       "every nested class text, indented, into the class body", DISCHARGED if ok else VIOLATED,
                       "ok" if ok else "nested class texts are dropped or altered", f.node.lineno)
